@@ -68,7 +68,14 @@ fn single(idx: u64, rng: &mut Rng, mon: &mut Mon) {
         q[j] = sg * (PI - d);
         mon.count("near_pi_with_zero_previous");
     }
-    let from_q = near_pi.is_some() || rng.bool(0.75);
+    // one case in twenty is exactly wrist-singular (model J5 = 0): the recovered answer is assembled from the previous
+    // vector and must be normalised and ranked like every other one
+    let singular = near_pi.is_none() && rng.usize(20) == 0 && rp.signs[4] != 0;
+    if singular {
+        place_t5(&rp, &mut q, 0, 0.0);
+        mon.count("exactly_wrist_singular_poses");
+    }
+    let from_q = near_pi.is_some() || singular || rng.bool(0.75);
     // a fifth of the solvers sits behind a stack of Tool / Base / Frame wrappers: the contract is the outermost one's
     let layers: Vec<crate::props::stack::Layer> = if rng.bool(0.2) { crate::props::stack::gen_stack(rng, 1 + rng.clone().usize(2), rng.clone().bool(0.5), &["Tool", "Base", "Frame"]) } else { vec![] };
     let _ = rng.next_u64();
@@ -114,7 +121,7 @@ fn single(idx: u64, rng: &mut Rng, mon: &mut Mon) {
     let w = cons.map(|c| c.sorting_weight).unwrap_or(0.0);
     let centres = cons.map(|c| c.centers).unwrap_or([0.0; 6]);
     // previous inside [-2pi,2pi]
-    let pclass = if near_pi.is_some() { 5 } else { rng.usize(5) };
+    let pclass = if near_pi.is_some() { 5 } else if singular { 1 + rng.usize(3) } else { rng.usize(5) };
     let mut sentinel = false;
     let prev: [f64; 6] = match pclass {
         5 => {
